@@ -49,3 +49,33 @@ Fixpoint switch_rejects (s : str) (cases : list (scond * list scond)) : bool :=
   | [] => false
   | (g, body) :: rest => if scond_eval s g then existsb (scond_eval s) body else switch_rejects s rest
   end.
+
+(* ---------- no index out of range (Go would panic where [nth] returns its default) ---------- *)
+Definition idx_ok (s : str) (i : sidx) : bool :=
+  match i with
+  | FromStart n => Nat.ltb n (length s)
+  | FromEnd k => Nat.leb 1 k && Nat.leb k (length s)
+  end.
+
+(* the indices a condition touches, in Go's evaluation order (&& and || short-circuit) *)
+Fixpoint scond_safe (s : str) (c : scond) : bool :=
+  match c with
+  | CTrue => true
+  | CByte i _ _ => idx_ok s i
+  | CNum2 i _ _ => idx_ok s i && idx_ok s (next_idx i)
+  | CAnd a c => scond_safe s a && (if scond_eval s a then scond_safe s c else true)
+  | COr a c => scond_safe s a && (if scond_eval s a then true else scond_safe s c)
+  | CNot a => scond_safe s a
+  end.
+
+Fixpoint body_safe (s : str) (body : list scond) : bool :=
+  match body with
+  | [] => true
+  | c :: r => scond_safe s c && (if scond_eval s c then true else body_safe s r)
+  end.
+
+Fixpoint switch_safe (s : str) (cases : list (scond * list scond)) : bool :=
+  match cases with
+  | [] => true
+  | (g, body) :: rest => scond_safe s g && (if scond_eval s g then body_safe s body else switch_safe s rest)
+  end.
